@@ -326,6 +326,27 @@ func raceOne(m map[string]string) string {
 			}
 		}(c)
 	}
+	// dedicated pollers: a status display that asks for the tracker list, the peers and the statistics all the time
+	for g := 0; g < 2; g++ {
+		wg.Add(1)
+		go func(g int) {
+			defer wg.Done()
+			for {
+				select {
+				case <-stop:
+					return
+				default:
+				}
+				t := lt
+				if g == 1 {
+					t = st
+				}
+				call("PollTrackers", func() { t.Trackers() })
+				call("PollPeers", func() { t.Peers() })
+				call("PollStats", func() { t.Stats() })
+			}
+		}(g)
+	}
 	time.Sleep(dur)
 	close(stop)
 	wg.Wait()
